@@ -323,9 +323,13 @@ extern (*Stream).processSingleFieldFallback
   props C05
   modifies mapof(result)
 
-extern (*Stream).processExpressionField
-  props C05 C20
+func (*Stream).processExpressionField
+  props C05 C20 C06
+  option assumed_frame
   modifies mapof(result)
+  count asked := EvaluateExpression
+  observe ferr := EvaluateValueWithNull#2
+  atreturn [C05 C06] on-the-fast-path-a-failure-of-the-numeric-engine-is-not-the-answer-the-bridge-is-asked: old(s.compiledExprInfo != nil && dom(s.compiledExprInfo, fieldName) && s.compiledExprInfo[fieldName] != nil && !s.compiledExprInfo[fieldName].isFunctionCall && !s.compiledExprInfo[fieldName].hasNestedFields && s.compiledExprInfo[fieldName].compiledExprFastPath) && $ferr != nil ==> $asked >= 1
 
 // qst(s, n): quote state after the first n bytes of a "field:alias" spec: 0 outside quotes, else the byte that
 // opened the quote (', " or `). A colon is the field/alias separator only where the state before it is 0.
